@@ -6,6 +6,7 @@
     c16.declare N | dispose N | close N                                            → ok | E<code>
     c16.open N k row_1 … row_k        rows = result of the cursor's query now     → ok | E<code>
     c16.fetch N next|prior|first|last | abs n | rel n                              → row <tok> | none | E<code>
+    c16.openfail N E<code>            OPEN when the query's source is gone (`stepOpenFailing`) → E11002 | E11004 | E<code>
     c16.fetchbad N                    position number is not an integer            → E11008
     c16.isopen N [not] | inrange N [not]   CURSOR N IS [NOT] OPEN / IN RANGE (`cursorStatus`) → T | F | U | E<code>
     c16.count N                       → I<n> | E<code>
@@ -129,6 +130,15 @@ partial def c16Loop (h out : IO.FS.Stream) (s : Scope String) : IO Unit := do
       out.putStrLn "ok"
       c16Loop h out []
     | [_, cmd] =>
+      if cmd = "openfail" then
+        match args with
+        | [n, code] =>
+          out.putStrLn (match stepOpenFailing s n with | some e => "E" ++ toString e.code | none => code)
+          c16Loop h out s
+        | _ =>
+          out.putStrLn "bad-op"
+          c16Loop h out s
+      else
       if cmd = "loop" || cmd = "block" || cmd = "nest" then
         match structured s cmd args with
         | some (s', line) =>
